@@ -107,11 +107,19 @@ fn compile_perm_check(buffer: &mut String, check: &PermCheck) {
     buffer.push_str(&code)
 }
 
+/// Text that is printed as it is: it is spliced in a string literal which is then used as a
+/// `format` template, so both the reader's and `format`'s special characters are escaped
+fn verbatim(text: &str) -> String {
+    crate::scheme::escape_string(text).replace('~', "~~")
+}
+
 fn literal(special: &FormatSpecial) -> String {
     match special {
         FormatSpecial::Alarm => "\\a".to_string(),
-        FormatSpecial::Ascii(val) => format!("{}", char::from_u32(*val as u32).unwrap_or('0')),
-        FormatSpecial::Backslash => "\\".to_string(),
+        FormatSpecial::Ascii(val) => {
+            verbatim(&char::from_u32(*val as u32).unwrap_or('0').to_string())
+        }
+        FormatSpecial::Backslash => "\\\\".to_string(),
         FormatSpecial::Backspace => "\\b".to_string(),
         FormatSpecial::CarriageReturn => "\\r".to_string(),
         FormatSpecial::Clear => "\\c".to_string(),
@@ -242,7 +250,7 @@ impl TargetScheme for Vec<FormatElement> {
         let template = self
             .iter()
             .map(|el| match el {
-                FormatElement::Literal(s) => Ok(s.clone()),
+                FormatElement::Literal(s) => Ok(verbatim(s)),
                 FormatElement::Field(f) => placeholder(f).map(|s| s.to_string()),
                 FormatElement::Special(v) => Ok(literal(v)),
             })
